@@ -135,6 +135,10 @@ package object
 
 //@ guarded typeConverters goTypeMutex
 //@ guarded goTypeRegistry goTypeMutex
+// A GoType is shared by every VM through the registry; its lazily resolved converter is read and written only
+// under the same lock (objects still being built by newGoType in the same function are exempt).
+//@ guardedfield GoType.converter global:goTypeMutex
+//@ scan[C09.gotype.converter.writers] C09 fieldwriters GoType.converter: getConverter
 
 //@ func NewTypeConverter
 //@ props C09 C08
@@ -159,7 +163,7 @@ package object
 //@ func newGoType
 //@ props C09 C08
 //@ requires[C09.lock] ghost("lock.w", bool, goTypeMutex)
-//@ modcomps H_ E_ M G_object_typeConverters G_object_goTypeRegistry
+//@ modcomps H_ E_ M G_object_typeConverters G_object_goTypeRegistry -MD_string_any -MV_string_any -MD_string_object_Object -MV_string_object_Object
 //@ assumeframe
 //@ ensures[C08.registry.clean] err != nil ==> !haskey(goTypeRegistry, typ) && result0 == nil
 
@@ -172,7 +176,7 @@ package object
 //@ props C09
 //@ assume[types.nonnil] t != nil && goTypeMutex != nil
 //@ requires[C09.unlocked] !ghost("lock.w", bool, goTypeMutex) && !ghost("lock.r", bool, goTypeMutex)
-//@ modcomps H_ E_ M G_object_typeConverters G_object_goTypeRegistry
+//@ modcomps H_ E_ M G_object_typeConverters G_object_goTypeRegistry -MD_string_any -MV_string_any -MD_string_object_Object -MV_string_object_Object
 //@ modifies ghost("lock.w", bool, goTypeMutex), ghost("lock.r", bool, goTypeMutex)
 //@ assumeframe
 //@ ensures[C09.released] !ghost("lock.w", bool, goTypeMutex) && !ghost("lock.r", bool, goTypeMutex)
@@ -181,26 +185,26 @@ package object
 //@ props C09
 //@ assume[types.nonnil] t != nil
 //@ requires[C09.lock] ghost("lock.w", bool, goTypeMutex)
-//@ modcomps H_ E_ M G_object_typeConverters G_object_goTypeRegistry
+//@ modcomps H_ E_ M G_object_typeConverters G_object_goTypeRegistry -MD_string_any -MV_string_any -MD_string_object_Object -MV_string_object_Object
 //@ assumeframe
 
 //@ func newGoField
 //@ props C09
 //@ requires[C09.lock] ghost("lock.w", bool, goTypeMutex)
-//@ modcomps H_ E_ M G_object_typeConverters G_object_goTypeRegistry
+//@ modcomps H_ E_ M G_object_typeConverters G_object_goTypeRegistry -MD_string_any -MV_string_any -MD_string_object_Object -MV_string_object_Object
 //@ assumeframe
 
 //@ func getMethods
 //@ props C09
 //@ requires[C09.lock] ghost("lock.w", bool, goTypeMutex)
-//@ modcomps H_ E_ M G_object_typeConverters G_object_goTypeRegistry
+//@ modcomps H_ E_ M G_object_typeConverters G_object_goTypeRegistry -MD_string_any -MV_string_any -MD_string_object_Object -MV_string_object_Object
 //@ assumeframe
 //@ invariant 1: ghost("lock.w", bool, goTypeMutex)
 
 //@ func newGoMethod
 //@ props C09
 //@ requires[C09.lock] ghost("lock.w", bool, goTypeMutex)
-//@ modcomps H_ E_ M G_object_typeConverters G_object_goTypeRegistry
+//@ modcomps H_ E_ M G_object_typeConverters G_object_goTypeRegistry -MD_string_any -MV_string_any -MD_string_object_Object -MV_string_object_Object
 //@ assumeframe
 
 // A proxied method call runs without the lock and takes it (through GetConverter) once per parameter / result.
